@@ -26,13 +26,13 @@ RULE = ("cases = (dataset, 1-2 free variables, universal variable with non-empty
         "rows are compared with the universally quantified Python statement, with caching enabled and disabled. "
         "Non-trivial = |U| >= 2, c mentions both u and a free variable, and the result is a non-empty proper subset of the "
         "free product; distinct = canonical JSON.")
-BUDGET = {"quick": (4, 800), "thorough": (16, 6000)}
+BUDGET = {"quick": (8, 600), "thorough": (16, 6000)}
 ASSUMPTIONS = ["the universal variable's domain is non-empty (the statement excludes the empty case)"]
 
 
 def _cfg():
     avoid = open_features()
-    return Cfg(nvars=(2, 3), pool=(2, 5), dom=(1, 4), profile="falsy" if "falsy_values" not in avoid else "clean",
+    return Cfg(nvars=(2, 3), pool=(3, 6), dom=(1, 4), profile="falsy" if "falsy_values" not in avoid else "clean",
                max_depth=2, allow_nested_not="not_under_not" not in avoid, noise=False, force_relate=True)
 
 
@@ -54,8 +54,8 @@ def _case(draw, tier):
     ctx = Ctx(cfg, recs, nF + 1)
     doms = []
     for v in range(nF + 1):
-        hi = min(4 if v == u else 3, n)
-        size = draw(st.sampled_from(list(range(1, hi + 1)) + [hi]))
+        hi = min(4 if v == u else 4, n)
+        size = draw(st.sampled_from(list(range(1, hi + 1)) + [hi, hi]))
         doms.append(list(draw(st.permutations(list(range(n))))[:size]))
     vars_ = [{"dom": v, "decl": draw(st.sampled_from(["let", "from"])), "type": "Ent"} for v in range(nF + 1)]
     frees = list(range(nF))
